@@ -102,6 +102,36 @@ func (a *Analyzer) doCall(fr *frame, site ssa.Instruction, c *ssa.CallCommon, st
 			a.OnCall(a, st, ci, fn, callArgs)
 		}
 	}
+	if spec, isPure := a.OpaquePure[fn.String()]; isPure && a.P.IsRepoFunc(fn) {
+		// a pure helper kept symbolic: result described as helper(argument), with the declared length
+		nb := &Base{ID: a.id(), Desc: fmt.Sprintf("%s(%s)", shortName(fn.String()), argsDesc(callArgs)), Fresh: true, Op: "call:" + shortName(fn.String())}
+		if len(callArgs) > 0 {
+			if as, ok := callArgs[0].(*Slice); ok {
+				nb.From = as
+			}
+		}
+		var ln Lin
+		switch {
+		case spec >= 0:
+			ln = Const(spec)
+		case spec == -2 && len(callArgs) > 1:
+			if iv, ok := callArgs[1].(Int); ok {
+				ln = iv.L
+			} else {
+				ln = AtomLin(a.freshLen("len(" + nb.Desc + ")"))
+			}
+		default:
+			ln = AtomLin(a.freshLen("len(" + nb.Desc + ")"))
+		}
+		res0 := &Slice{Base: nb, Off: Const(0), Len: ln}
+		if sig := fn.Signature; sig.Results().Len() == 1 {
+			if b, isB := sig.Results().At(0).Type().Underlying().(*types.Basic); isB && b.Info()&types.IsString != 0 {
+				res0.IsStr = true
+			}
+		}
+		bind(st, res0)
+		return []*State{st}
+	}
 	if a.Opaque != nil && a.P.IsRepoFunc(fn) && a.Opaque(fn) {
 		// modular step: fn is verified separately for arbitrary arguments; here only its
 		// effect is over-approximated (results unknown, memory reachable from arguments unknown)
@@ -271,6 +301,16 @@ func (a *Analyzer) builtin(fr *frame, site ssa.Instruction, b *ssa.Builtin, c *s
 		if s != nil {
 			st.AssumeGE(s.Len.Sub(AtomLin(n)))
 		}
+		if a.LogWrites && d != nil && s != nil {
+			// copy writes min(len(dst), len(src)) bytes; recorded with the source's length when it is known to fit
+			cn := AtomLin(n)
+			if st.Cons.EntailsGE(d.Len.Sub(s.Len)) {
+				cn = s.Len
+			} else if st.Cons.EntailsGE(s.Len.Sub(d.Len)) {
+				cn = d.Len
+			}
+			st.Log = append(st.Log, &WriteRec{Base: d.Base, Off: d.Off, Src: s, N: cn})
+		}
 		return one(Int{AtomLin(n)})
 	case "delete":
 		if m, ok := args[0].(*MapT); ok {
@@ -409,6 +449,9 @@ func (a *Analyzer) external0(fr *frame, site ssa.Instruction, name string, sig *
 				})
 				st.AssumeGE(g)
 				st.Ver[s.Base.ID] = a.id()
+				if a.LogWrites && len(args) > 2 {
+					st.Log = append(st.Log, &WriteRec{Base: s.Base, Off: s.Off, Width: w, LE: le, Val: args[2]})
+				}
 				if a.OnWrite != nil && len(args) > 2 {
 					a.OnWrite(st, s, w, args[2])
 				}
